@@ -33,6 +33,11 @@ CLAIMS = {
   technique=TECH + "bounded plain harnesses on the real base64.c (the only leaf of the XML round trip within reach)",
   text="ONE LEAF ONLY, BOUNDED: hwloc_decode_from_base64(hwloc_encode_to_base64(x)) == x with the documented lengths and NUL termination for every byte string of length 0..4 with exact-size buffers (any access outside them is a bounds violation), a target one byte too small is refused; the decoder is memory safe on every 5-character string with every target size or NULL. The property itself -- export followed by import reproduces the topology, fixpoint, cross-backend, v2 -- is a relation between two unbounded object trees through two parsers and is not decided by this technique.",
   note="Trusted: C-locale isspace, cbmc's strchr model; bounded (lengths <= 4/5, unwind 70)."),
+ "C06": dict(
+  category="other", design_ref="DESIGN.md section 3 (C06)",
+  technique=TECH + "bounded plain harnesses on the real in-place scanners of topology-xml-nolibxml.c",
+  text="ONE LEAF ONLY, BOUNDED: the four in-place scanners every byte of a nolibxml import goes through first (hwloc__nolibxml_import_next_attr, _find_child, _close_tag, _get_content/_close_content) on an ARBITRARY 7-byte buffer plus terminating NUL (the shape backend_init allocates), with their cursors anywhere inside it: every read and write stays inside the buffer, the functions return -1/0/1, and every cursor and returned pointer stays inside the buffer; find_child guarantees, and next_attr assumes, that an attribute text ends before the final byte. The property itself (any XML never corrupts memory, hangs or yields a broken topology; libxml backend; diff XML) needs the whole import over an unbounded tree and is not decided by this technique.",
+  note="Trusted: strspn model, cbmc's strchr/strcmp/strncmp/strlen models; bounded (buffer 7+1 bytes, unwind 40; thorough tier 10+1)."),
  "C13": dict(
   category="proof", design_ref="DESIGN.md section 3 (C13)",
   technique=TECH + "DFCC frame contract on hwloc_distances_add_create (rejection prefix)",
@@ -72,7 +77,6 @@ CLAIMS = {
 
 NOT_APPLICABLE = {
  "C01": "global well-formedness of an unbounded, cyclically linked object tree produced by hwloc_topology_load through backends, files and ~3000 lines of insertion code: neither the state predicate (no inductive heap predicates in CBMC contracts) nor load as a contract subject is expressible (DESIGN.md section 6)",
- "C06": "arbitrary XML never corrupts memory: the import walks unbounded buffers and builds an unbounded tree; only bounded checks of the nolibxml scanners would be in reach (not built)",
  "C07": "synthetic parser/builder over strings up to 128 levels with strtoul/strchr cursors: invariants for the 390-line parser loop are out of budget (DESIGN.md section 6)",
  "C09": "every helper walks first_child/next_sibling/parent links of an unbounded tree and its spec quantifies over all objects; only the bitmap primitives are covered (C03)",
  "C12": "deep copy and absence of sharing over the whole heap; no ghost heap / separation predicates in CBMC contracts",
